@@ -46,7 +46,7 @@ inductive Ev
   | changed (keys : List (Nat × Nat))
   | auth (keys : List (Nat × Nat))      -- QXmppAtmManager::authenticate entered with a non-empty key set
   | dis (keys : List (Nat × Nat))       -- QXmppAtmManager::distrust entered with a non-empty key set
-  | fired (e : Entry)                   -- makePostponedTrustDecisions fetched this held-back entry
+  | fired (e : Entry)                   -- makePostponedTrustDecisions fetched this held-back entry and applies it
   | fuelExhausted                       -- never happens (proved)
   deriving DecidableEq, Repr
 
@@ -152,30 +152,39 @@ def Store.beginAuthEvs (s : Store) (keys : List (Nat × Nat)) : List Ev :=
   [.auth keys, .changed (modified s.trust keys .authenticated)] ++
     (if s1.policy = .toakafa then [.changed (autoDistrustModified s1.trust (keys.map (·.1)))] else [])
 
+/-- `makePostponedTrustDecisions(encryption, keyIds.values(), keyIds.uniqueKeys())` up to and including the
+scope re-check (repo commit a532e12): fetch what is held under the sender key ids just authenticated; unless
+the own account is among the accounts these keys were authenticated for, keep only the entries whose owner
+is one of those accounts (`removeUnqualifiedKeys`).  Entries dropped here stay stored. -/
+def Store.fetchQ (s : Store) (own : Nat) (keys : List (Nat × Nat)) : List Entry :=
+  (s.fetch (keys.map (·.2))).filter fun e =>
+    decide (own ∈ keys.map (·.1)) || decide (e.owner ∈ keys.map (·.1))
+
 /-- `makePostponedTrustDecisions` after the fetch: remove what is about to be applied -/
 def Store.takeFired (s : Store) (f : List Entry) : Store :=
   s.removeDecided ((targets f true).map (·.2)) ((targets f false).map (·.2))
 
 /-- `QXmppAtmManager::authenticate`, with `makePostponedTrustDecisions` and the inner
 `makeTrustDecisions` inlined; `n` is the fuel; result = new state and the events in order. -/
-def authF : Nat → Store → List (Nat × Nat) → Store × List Ev
-  | 0, s, keys => if keys = [] then (s, []) else (s, [.fuelExhausted])
-  | n + 1, s, keys =>
+def authF : Nat → Nat → Store → List (Nat × Nat) → Store × List Ev
+  | 0, _, s, keys => if keys = [] then (s, []) else (s, [.fuelExhausted])
+  | n + 1, own, s, keys =>
     if keys = [] then (s, []) else
     let s2 := s.beginAuth keys
-    -- makePostponedTrustDecisions(encryption, keyIds.values())
-    let f := s2.fetch (keys.map (·.2))
+    -- makePostponedTrustDecisions(encryption, keyIds.values(), keyIds.uniqueKeys())
+    let f := s2.fetchQ own keys
     -- makeTrustDecisions(encryption, keysBeingAuthenticated, keysBeingDistrusted)
-    let r := authF n (s2.takeFired f) (targets f true)
+    let r := authF n own (s2.takeFired f) (targets f true)
     (r.1.distrust (targets f false),
      s.beginAuthEvs keys ++ f.map .fired ++ r.2 ++ r.1.distrustEvs (targets f false))
 
-def Store.authenticate (s : Store) (keys : List (Nat × Nat)) : Store × List Ev :=
-  authF (s.postponed.length + 1) s keys
+/-- `own` = own bare JID (`client()->configuration().jidBare()`) -/
+def Store.authenticate (s : Store) (own : Nat) (keys : List (Nat × Nat)) : Store × List Ev :=
+  authF (s.postponed.length + 1) own s keys
 
 /-- private `makeTrustDecisions(encryption, keyIdsForAuthentication, keyIdsForDistrusting)` -/
-def Store.makeTrustDecisions (s : Store) (auth dis : List (Nat × Nat)) : Store × List Ev :=
-  let r := s.authenticate auth
+def Store.makeTrustDecisions (s : Store) (own : Nat) (auth dis : List (Nat × Nat)) : Store × List Ev :=
+  let r := s.authenticate own auth
   (r.1.distrust dis, r.2 ++ r.1.distrustEvs dis)
 
 /-- `QXmppTrustMessageKeyOwner` -/
@@ -228,7 +237,7 @@ def processed (c : Cfg) (m : Msg) : Bool :=
 def Store.handleMessage (c : Cfg) (s : Store) (m : Msg) : Store × List Ev :=
   if processed c m then
     if s.level m.fromAcc m.senderKey = .authenticated then
-      s.makeTrustDecisions (namedTrusted (inScope c m)) (namedDistrusted (inScope c m))
+      s.makeTrustDecisions c.own (namedTrusted (inScope c m)) (namedDistrusted (inScope c m))
     else
       -- nothing to decide now: makeTrustDecisions({}, {}) is a no-op
       (s.addPostponed (holdEntries m.senderKey (inScope c m)), [])
@@ -236,11 +245,11 @@ def Store.handleMessage (c : Cfg) (s : Store) (m : Msg) : Store × List Ev :=
 
 /-- public `makeTrustDecisions(encryption, keyOwnerJid, keyIdsForAuthentication, keyIdsForDistrusting)`;
 the trust messages it sends are not modelled -/
-def Store.manual (s : Store) (o : Nat) (a d : List Nat) : Store × List Ev :=
+def Store.manual (s : Store) (own : Nat) (o : Nat) (a d : List Nat) : Store × List Ev :=
   let ma := a.filter fun k => decide (s.level o k ≠ .authenticated)
   let md := d.filter fun k => decide (s.level o k ≠ .manDistrusted)
   if ma = [] ∧ md = [] then (s, [])
-  else s.makeTrustDecisions (ma.map fun k => (o, k)) (md.map fun k => (o, k))
+  else s.makeTrustDecisions own (ma.map fun k => (o, k)) (md.map fun k => (o, k))
 
 inductive Op
   | setPolicy (p : Policy)                 -- QXmppTrustManager::setSecurityPolicy
@@ -253,7 +262,7 @@ inductive Op
 def stepStore (c : Cfg) (s : Store) : Op → Store × List Ev
   | .setPolicy p => ({ s with policy := p }, [])
   | .seed o k l => (s.setLevels [(o, k)] l, [.changed (modified s.trust [(o, k)] l)])
-  | .manual o a d => s.manual o a d
+  | .manual o a d => s.manual c.own o a d
   | .message m => s.handleMessage c m
 
 def runStore (c : Cfg) (s : Store) : List Op → Store × List (List Ev)
